@@ -377,6 +377,10 @@ func ValidateMatrix(body []byte, ss []MatrixSeries, o MatrixOpts) []Finding {
 				out = append(out, Finding{"shape", fmt.Sprintf("series %q value %d is not [seconds, \"value\"]: %s", key, j, clipS(string(b), 80))})
 				continue
 			}
+			if _, perr := strconv.ParseFloat(val, 64); perr != nil {
+				out = append(out, Finding{"shape", fmt.Sprintf("series %q value %d: %q is not a number (NaN, +Inf and -Inf are written as such)", key, j, clipS(val, 40))})
+				continue
+			}
 			if ts <= last {
 				out = append(out, Finding{"timestamp-order", fmt.Sprintf("series %q: timestamp %d follows %d (duplicate or out of order)", key, ts, last)})
 			}
